@@ -259,6 +259,111 @@ func runMeta(c metaCase) (viol []rec.Violation, counts map[string]int64, inconcl
 	return
 }
 
+// manyOpen: more distinct shard ids open at once than any real cluster has shards (LCM-mode fake ids, or a
+// misbehaving peer), the observer's periodic report running over them, then a well-formed stream: the
+// bookkeeping of the many must not block the one. Every stream goes through the real handler.
+func manyOpen(mode string, n int) (viol []rec.Violation, counts map[string]int64, inconclusive string) {
+	counts = map[string]int64{}
+	v := func(sig, f string, a ...any) {
+		viol = append(viol, rec.Violation{Prop: "C20", Sig: sig, What: fmt.Sprintf(f, a...)})
+	}
+	probe := fakes.NewProbe(1)
+	observer := proxy.NewReplicationStreamObserver(probe)
+	src := &fakeAdmin{window: 4, shardCount: 4}
+	life, lifeCancel := context.WithCancel(context.Background())
+	defer lifeCancel()
+	scc := config.ShardCountConfig{}
+	lcm := proxy.LCMParameters{}
+	if mode == "lcm" {
+		scc = config.ShardCountConfig{Mode: config.ShardCountLCM, LocalShardCount: 4, RemoteShardCount: 6}
+		lcm = proxy.LCMParameters{LCM: 12, TargetShardCount: 4}
+	}
+	h := proxy.NewAdminServiceProxyServer("inboundAdminService", src, nil, proxy.AdminServiceOverrides{}, []string{"inbound"}, observer.ReportStreamValue, scc, lcm, proxy.RoutingParameters{}, probe, nil, life)
+	opens := func() int { src.mu.Lock(); defer src.mu.Unlock(); return len(src.opened) }
+	var cancels []context.CancelFunc
+	var dones []chan error
+	open := func(id int) {
+		md := goodMD()
+		md[mdKeys[3]] = fmt.Sprint(id)
+		var pairs []string
+		for _, k := range mdKeys {
+			pairs = append(pairs, k, md[k])
+		}
+		ictx, icancel := context.WithCancel(metadata.NewIncomingContext(context.Background(), metadata.Pairs(pairs...)))
+		ss := fakes.NewServerSide(ictx, 4)
+		done := make(chan error, 1)
+		go func() { done <- h.StreamWorkflowReplicationMessages(ss) }()
+		cancels, dones = append(cancels, icancel), append(dones, done)
+	}
+	for id := 1; id <= n; id++ {
+		open(id)
+	}
+	if !waitFor(90*time.Second, func() bool { return opens() >= n }) {
+		return nil, counts, fmt.Sprintf("only %d of %d streams were being served after 90 s (setup)", opens(), n)
+	}
+	counts["streams_held_open"] = int64(n)
+	// the periodic report over all of them (what the observer's ticker calls)
+	rep := make(chan string, 1)
+	go func() { rep <- observer.PrintActiveStreams() }()
+	select {
+	case s := <-rep:
+		counts["report_calls_returned"]++
+		counts["report_bytes"] = int64(len(s))
+	case <-time.After(30 * time.Second):
+		v("wedged:active-stream-report-never-returns", "with %d distinct shard ids open, the observer's active-stream report did not return within 30 s", n)
+	}
+	// a well-formed stream now
+	before := opens()
+	open(7)
+	if !waitFor(10*time.Second, func() bool { return opens() > before }) {
+		if g := stuckInObserver(observer); g != "" {
+			v("wedged:follow-up-stream-blocked-in-observer:many-open", "with %d distinct shard ids open and after one active-stream report, a well-formed stream is not served: its handler is parked in the stream observer's bookkeeping:\n%s", n, firstLines(g, 14))
+		} else if len(viol) == 0 {
+			inconclusive = "follow-up stream not served within 10 s with many streams open, no wedge visible"
+		}
+	} else {
+		counts["follow_up_served_end_to_end"]++
+	}
+	// everything ends
+	for _, c := range cancels {
+		c()
+	}
+	src.mu.Lock()
+	for _, o := range src.opened {
+		o.cs.Finish(nil)
+	}
+	src.mu.Unlock()
+	ended := 0
+	deadline := time.Now().Add(60 * time.Second)
+	for _, d := range dones {
+		select {
+		case <-d:
+			ended++
+		case <-time.After(time.Until(deadline)):
+		}
+	}
+	if ended < len(dones) {
+		if g := stuckInObserver(observer); g != "" {
+			v("wedged:streams-cannot-end:many-open", "%d of %d handlers did not return after both sides ended; parked in the stream observer:\n%s", len(dones)-ended, len(dones), firstLines(g, 12))
+		} else if len(viol) == 0 {
+			inconclusive = fmt.Sprintf("%d of %d handlers did not return within 60 s after both sides ended (no observer wedge visible)", len(dones)-ended, len(dones))
+		}
+		return
+	}
+	if len(viol) == 0 {
+		var active string
+		if !waitFor(5*time.Second, func() bool { active = observer.PrintActiveStreams(); return active == "[]" }) {
+			if len(active) > 200 {
+				active = active[:200] + "..."
+			}
+			v("observer-counters-not-conserved:many-open", "after %d streams with distinct shard ids ended the observer still reports active streams %s", n, active)
+		} else {
+			counts["counters_conserved"]++
+		}
+	}
+	return
+}
+
 func firstLines(s string, n int) string {
 	l := strings.Split(s, "\n")
 	if len(l) > n {
@@ -335,6 +440,20 @@ func TestMeta(t *testing.T) {
 		if sampled < 3 && idx%7 == 3 {
 			sampled++
 			l.Sample = map[string]any{"case": c, "log": log, "result": counts}
+		}
+		out.End(l)
+	}
+	// more distinct ids open at once than a real cluster has shards, plus the observer's report
+	for mi, mode := range []string{"default", "lcm"} {
+		name := "many-open/" + mode
+		if !rec.Want(len(cases)+5+9*mi, name) {
+			continue
+		}
+		out.Begin(name, map[string]any{"mode": mode, "streams": 16500})
+		viol, counts, inconc := manyOpen(mode, 16500)
+		l := rec.Line{Case: name, Viol: viol, Counts: counts, Class: name}
+		if inconc != "" && len(viol) == 0 {
+			l.Verdict, l.Why = rec.Inconclusive, inconc
 		}
 		out.End(l)
 	}
